@@ -137,14 +137,34 @@ func checkWaitGroups(r *core.Run, p *core.Program, a *analysis, rule string) {
 						return false
 					}
 					if lit, ok := s.Call.Fun.(*ast.FuncLit); ok {
-						inspectCalls(info, lit.Body, func(c *ast.CallExpr, cal *types.Func) {
-							if isDone(c) {
-								deferredDone = true
-							}
-							if cal != nil && typeIs(recvType(cal), "sync", "Map") && (cal.Name() == "Delete" || cal.Name() == "Store") {
-								deferredFixesCache = true
-							}
-						})
+						// the failure handling may live in a helper that is handed &wg: follow it
+						var scan func(body ast.Node, wg types.Object, depth int)
+						scan = func(body ast.Node, wg types.Object, depth int) {
+							inspectCalls(info, body, func(c *ast.CallExpr, cal *types.Func) {
+								if cal == nil {
+									return
+								}
+								if cal.Name() == "Done" && typeIs(recvType(cal), "sync", "WaitGroup") {
+									if sel, ok := c.Fun.(*ast.SelectorExpr); ok && objOf(info, stripAddr(sel.X)) == wg {
+										deferredDone = true
+									}
+								}
+								if typeIs(recvType(cal), "sync", "Map") && (cal.Name() == "Delete" || cal.Name() == "Store") {
+									deferredFixesCache = true
+								}
+								if depth < 2 && cal.Pkg() == f.Pkg.Types {
+									if hd := p.FuncDecl(cal); hd != nil && hd.Body != nil {
+										sig := cal.Type().(*types.Signature)
+										for i, arg := range c.Args {
+											if i < sig.Params().Len() && objOf(info, stripAddr(arg)) == wg {
+												scan(hd.Body, sig.Params().At(i), depth+1)
+											}
+										}
+									}
+								}
+							})
+						}
+						scan(lit.Body, wgObj, 0)
 					}
 					return false
 				case *ast.CallExpr:
@@ -207,32 +227,23 @@ func checkTerminateProgress(r *core.Run, p *core.Program, a *analysis) {
 		r.Pass("C07.progress", "builder.Context.ArtificiallyTerminate|no-loop", f.Decl.Pos(), "")
 		return
 	}
-	// (b) in-loop progress guard: depth := len(stack) … if len(stack) >= depth { Unstack / break / return }
-	var depthObj types.Object
+	// (b) in-loop progress guard: the loop remembers the stack depth, runs the terminator and unstacks the
+	// current builder itself when the depth did not go down (compared after canonicalisation, so an inverted
+	// test with `continue`, renamed locals or an else-less early exit read the same)
 	guard := false
-	for _, s := range loop.Body.List {
-		switch s := s.(type) {
-		case *ast.AssignStmt:
-			if len(s.Lhs) == 1 && len(s.Rhs) == 1 && strings.HasPrefix(exprStr(s.Rhs[0]), "len(") && strings.Contains(exprStr(s.Rhs[0]), "builderStack") {
-				depthObj = objOf(info, s.Lhs[0])
-			}
-		case *ast.IfStmt:
-			if be, ok := stripParens(s.Cond).(*ast.BinaryExpr); ok && (be.Op == token.GEQ || be.Op == token.EQL) && depthObj != nil && objOf(info, be.Y) == depthObj && strings.Contains(exprStr(be.X), "builderStack") {
-				for _, t := range s.Body.List {
-					switch t := t.(type) {
-					case *ast.ExprStmt:
-						if c, ok := t.X.(*ast.CallExpr); ok {
-							if cal := callee(info, c); cal != nil && strings.HasPrefix(cal.Name(), "Unstack") {
-								guard = true
-							}
-						}
-					case *ast.BranchStmt, *ast.ReturnStmt:
-						guard = true
-					}
-				}
+	if ctxT := p.LookupType("builder", "Context"); ctxT != nil {
+		e := &effectCtx{a: a, p: p, ctxType: ctxT.Type().(*types.Named)}
+		got := e.summarize(f.Obj)
+		for _, want := range []string{
+			"for(;?pure:len($_this.builderStack)>1;){def($v1=?pure:len($_this.builderStack)); iface.BuildArtificiallyEndContainer($_this); if(?pure:len($_this.builderStack)>=$v1){ctx.UnstackBuilder()}}",
+			"for(;?pure:len($_this.builderStack)>1;){def($v1=?pure:len($_this.builderStack)); iface.BuildArtificiallyEndContainer($_this); if(?pure:len($_this.builderStack)==$v1){ctx.UnstackBuilder()}}",
+		} {
+			if sameEffect(got, []string{want}) {
+				guard = true
 			}
 		}
 	}
+	_ = info
 	if guard {
 		r.Pass("C07.progress", "builder.Context.ArtificiallyTerminate|progress-guard", loop.Pos(), "")
 		return
